@@ -48,16 +48,41 @@ package model
 //@ func (*Vocabulary).Encode$1
 //@   requires len(v.Values) <= 2147483647
 //@   ensures forall s string :: has(v.values, s) ==> 0 <= v.values[s] && v.values[s] < len(v.Values)
+//@   ensures forall i int :: 0 <= i && i < len(v.Values) ==> has(v.values, v.Values[i])
 //@   loop 1 invariant forall s string :: has(v.values, s) ==> 0 <= v.values[s] && v.values[s] <= rangeindex
+//@   loop 1 invariant forall i int :: 0 <= i && i <= rangeindex ==> has(v.values, v.Values[i])
 
 // sync.Once glue (explicit assumption, listed in the evidence): after valuesOnce.Do(f)
 // the postcondition of f holds - f = (*Vocabulary).Encode$1 ran now or earlier and is
 // the only code that writes v.values; Values is not changed after construction.
 //@ func (*Vocabulary).Encode
-//@   assume-at return #1 : forall s string :: has(v.values, s) ==> 0 <= v.values[s] && v.values[s] < len(v.Values)
+//@   assume-at after call Do #1 : forall s string :: has(v.values, s) ==> 0 <= v.values[s] && v.values[s] < len(v.Values)
+//@   assume-at after call Do #1 : forall i int :: 0 <= i && i < len(v.Values) ==> has(v.values, v.Values[i])
+//@   ensures (exists i int :: 0 <= i && i < len(v.Values) && s == v.Values[i]) ==> result >= 0   -- every token text is found (so special tokens get real ids)
 //@   ensures result == -1 || (0 <= result && result < len(v.Values))
 
 //@ func (*Vocabulary).Decode
 //@   modifies nothing
 //@   requires 0 <= id && id < len(v.Values)
 //@   ensures result == v.Values[id]
+
+// The merge loops (BPE: Encode$1 after the byte loop and its closure pairwise = Encode$1$1;
+// SentencePiece: Encode and its closure Encode$1) are swept for panics without functional
+// contracts; the index obligations that depend on what the library priority queue
+// returns are listed as undecided in props/C20.json.
+//@ func (BytePairEncoding).Encode$1$1
+
+// Encode: special-token split, then the pre-tokenizer loop (body = Encode$1).
+//@ func (BytePairEncoding).Encode
+
+// ---- SentencePiece ----
+//@ func (SentencePieceModel).Encode$1
+
+// every id appended after a vocabulary lookup is guarded by id >= 0, hence an index into Values
+//@ func (SentencePieceModel).Encode
+//@   assert-at call append #8 : 0 <= id && id < len(spm.vocab.Values)
+//@   assert-at call append #10 : 0 <= id && id < len(spm.vocab.Values)
+//@   assert-at call append #11 : 0 <= unknownID && unknownID < len(spm.vocab.Values)
+
+//@ func (SentencePieceModel).Decode
+//@   requires forall k int :: 0 <= k && k < len(ids) ==> 0 <= ids[k] && ids[k] < len(spm.vocab.Values)
